@@ -57,7 +57,7 @@ Proof.
   assert (Hem : emits s = true) by (apply (proj2 (proj1 (filter_In emits s syms) ltac:(rewrite F; left; reflexivity)))).
   destruct (T s Hin) as [[He|He] _].
   - exfalso. unfold emits in Hem. rewrite He in Hem. destruct (stype s); discriminate.
-  - cbn [equations_of]. rewrite He. reflexivity.
+  - pose proof (Htidy s Hin) as Ts. unfold tidy in Ts. rewrite Hem in Ts. cbn [equations_of]. rewrite He, Ts. reflexivity.
 Qed.
 
 (* the graph of the re-parsed statement is the graph of its normalised equation *)
